@@ -119,6 +119,54 @@ pub proof fn lemma_child_edge_count(starts: Seq<u16>, edges: Seq<u16>, a: u16, b
     assert(edge_count(starts, edges, a as int, b) == count_in(es, b, es.len() as int));
 }
 
+// ---- acyclicity (C01): a graph is acyclic iff its nodes can be ranked so that every edge goes to a higher rank
+pub open spec fn ranked(starts: Seq<u16>, edges: Seq<u16>, rank: spec_fn(u16) -> int) -> bool {
+    forall|a: u16, b: u16| #[trigger] child_of(starts, edges, a, b) ==> rank(a) < rank(b) }
+pub open spec fn acyclic(starts: Seq<u16>, edges: Seq<u16>) -> bool { exists|rank: spec_fn(u16) -> int| ranked(starts, edges, rank) }
+// no edge from a waiting node below i into b  ==>  the in-degree restricted to the waiting nodes is 0
+pub proof fn lemma_indeg_zero_if_no_edge(starts: Seq<u16>, edges: Seq<u16>, dom: Set<u16>, b: u16, i: int)
+    requires 0 <= i <= 0x1_0000, forall|a: u16| dom.contains(a) && (a as int) < i ==> edge_count(starts, edges, a as int, b) == 0
+    ensures indeg(starts, edges, dom, b, i) == 0
+    decreases i
+{
+    if i > 0 { lemma_indeg_zero_if_no_edge(starts, edges, dom, b, i - 1); let x = (i - 1) as u16; assert(x as int == i - 1); }
+}
+// an edge count above zero is an edge
+pub proof fn lemma_edge_count_child(starts: Seq<u16>, edges: Seq<u16>, a: u16, b: u16)
+    requires edge_count(starts, edges, a as int, b) != 0 ensures child_of(starts, edges, a, b)
+{
+    match node_edges_spec(starts, edges, a as int) {
+        Some(es) => { lemma_count_witness(es, b, es.len() as int); },
+        None => {} }
+}
+pub proof fn lemma_count_witness(s: Seq<u16>, c: u16, k: int)
+    requires count_in(s, c, k) != 0, k <= s.len() ensures s.contains(c) decreases k
+{
+    if k > 0 { if s[k - 1] == c { assert(s[k - 1] == c); } else { lemma_count_witness(s, c, k - 1); } }
+}
+// a non-empty finite set of nodes has a member of minimal rank
+pub proof fn lemma_min_rank(dom: Set<u16>, rank: spec_fn(u16) -> int, bound: int) -> (m: u16)
+    requires dom.finite(), dom.len() > 0
+    ensures dom.contains(m), forall|x: u16| dom.contains(x) ==> rank(m) <= rank(x)
+    decreases dom.len()
+{
+    let x = dom.choose();
+    let rest = dom.remove(x);
+    if rest.len() == 0 {
+        assert forall|y: u16| dom.contains(y) implies rank(x) <= rank(y) by { if y != x { assert(rest.contains(y)); } }
+        x
+    } else {
+        let m2 = lemma_min_rank(rest, rank, bound);
+        if rank(x) <= rank(m2) {
+            assert forall|y: u16| dom.contains(y) implies rank(x) <= rank(y) by { if y != x { assert(rest.contains(y)); } }
+            x
+        } else {
+            assert forall|y: u16| dom.contains(y) implies rank(m2) <= rank(y) by { if y != x { assert(rest.contains(y)); } }
+            m2
+        }
+    }
+}
+
 // ---- parent lists (C01): the parents of node n in ascending order, one entry per edge (multiplicity kept).
 // plist(n, i, k) = entries contributed by all edges of the nodes below i and by the first k edges of node i, in that order.
 pub open spec fn plist(starts: Seq<u16>, edges: Seq<u16>, n: u16, i: int, k: int) -> Seq<u16>
